@@ -17,10 +17,11 @@ structure Cfg where
   writeSelectsClose : Bool    -- Write selects between the queue and the close channel
   shutdownAlways : Bool       -- every close path runs the whole once body (no early return on the flag)
   reportIfFirst : Bool        -- an error is reported only by the path that won the once
+  farewellInsideOnce : Bool   -- CloseDataConnection writes its close frame after marking the connection closed
   deriving DecidableEq, Repr
 
-def Cfg.fixed : Cfg := { pumpClosesQueue := false, writeSelectsClose := true, shutdownAlways := true, reportIfFirst := true }
-def Cfg.pinned : Cfg := { pumpClosesQueue := true, writeSelectsClose := false, shutdownAlways := false, reportIfFirst := false }
+def Cfg.fixed : Cfg := { pumpClosesQueue := false, writeSelectsClose := true, shutdownAlways := true, reportIfFirst := true, farewellInsideOnce := true }
+def Cfg.pinned : Cfg := { pumpClosesQueue := true, writeSelectsClose := false, shutdownAlways := false, reportIfFirst := false, farewellInsideOnce := false }
 
 abbrev Msg := Nat
 
@@ -55,6 +56,8 @@ structure S where
   deliveredAfterClose : Nat := 0
   reports : Nat := 0                -- ReportConnectionError calls
   localFirst : Bool := false        -- the once was won by a local close
+  localClosing : Bool := false      -- a deliberate local close has begun (its close frame is on the wire)
+  reportsAfterLocal : Nat := 0      -- error reports issued although a local close had begun
   rets : List (Bool × Bool) := []   -- (flag set at entry, returned nil) per finished Write
   panicked : Bool := false
   deriving Repr
@@ -67,6 +70,7 @@ inductive Act
   | pumpTake | pumpCheck | pumpWrite (ok : Bool) | pumpExit
   | rStart | rReturn | rCheck | rDeliver
   | peerSend | peerFail     -- peer sends a message / closes, fails, sends a bad frame
+  | localCloseBegin         -- CloseDataConnection with a reason: the close frame is written
   | localClose
   deriving DecidableEq, Repr
 
@@ -84,10 +88,14 @@ def shutdown (c : Cfg) (s : S) (err : Bool) (byError : Bool) : S × Bool :=
     else if s.closed then ({ s with once := true }, false)
     else ({ s with once := true, closed := true, closeCh := true, sock := true, localFirst := true }, true)
 
+def report (s : S) : S :=
+  { s with reports := s.reports + 1,
+           reportsAfterLocal := if s.localClosing then s.reportsAfterLocal + 1 else s.reportsAfterLocal }
+
 def errorPath (c : Cfg) (s : S) : S :=
   let r := shutdown c s true true
-  if c.reportIfFirst then (if r.2 then { r.1 with reports := r.1.reports + 1 } else r.1)
-  else { r.1 with reports := r.1.reports + 1 }
+  if c.reportIfFirst then (if r.2 then report r.1 else r.1)
+  else report r.1
 
 /-- pinned read-error path: close() first (once body), then flag + error, then report -/
 def readErrorPath (c : Cfg) (s : S) : S :=
@@ -95,7 +103,7 @@ def readErrorPath (c : Cfg) (s : S) : S :=
   else
     let r := shutdown c s false false
     let s := { r.1 with closed := true, errSet := true }
-    { s with reports := s.reports + 1 }
+    report s
 
 def step (c : Cfg) (s : S) : Act → S
   | .enter =>
@@ -170,6 +178,11 @@ def step (c : Cfg) (s : S) : Act → S
     | _ => s
   | .peerSend => { s with inbound := s.inbound ++ [.msg s.next], next := s.next + 1 }
   | .peerFail => { s with inbound := s.inbound ++ [.fail] }
+  | .localCloseBegin =>
+    -- with the frame written inside the once the whole close is one step (`localClose`);
+    -- otherwise the peer's reply to the frame can arrive, as a read error, before the close
+    if c.farewellInsideOnce then (shutdown c s false false).1
+    else { s with localClosing := true, inbound := s.inbound ++ [.fail] }
   | .localClose => (shutdown c s false false).1
 
 def run (c : Cfg) (acts : List Act) : S := acts.foldl (step c) {}
